@@ -113,13 +113,15 @@ def rule_add_note(ctx, ci):
     fi = repo.find_method(ci, "add_note")
     for n_existing in (0, 2):
         def mk():
-            ex = [note_stub(repo, "n%d" % i) for i in range(n_existing)]
-            new = note_stub(repo, "new")
+            ex = [note_stub(repo, "n%d" % i, pitch=Lin.of(Sym("pitch_n%d" % i, 0, 127))) for i in range(n_existing)]
+            new = note_stub(repo, "new", pitch=Lin.of(Sym("pitch_new", 0, 127)))
             lst = list(ex)
             c = AObj(ci, {"notes": lst}, name="container")
             return [c, new]
         try:
-            paths = run_method(repo, fi, mk, summaries=sym_compare_summaries())
+            summ_ = sym_compare_summaries()
+            summ_[NOTE + ".Note.__int__"] = lambda it, a, k, n: a[0].attrs["pitch"]
+            paths = run_method(repo, fi, mk, summaries=summ_)
         except CannotDecide as e:
             raise AnalysisError("add_note: %s" % e)
         ok, why = bool(paths), "no outcome"
@@ -144,6 +146,12 @@ def rule_add_note(ctx, ci):
                 if n_existing and id(lst) not in p.interp.sorted_ids:
                     ok, why = False, "after appending, the list is not sorted again before the method returns"
                     break
+                keys = p.interp.sort_keys.get(id(lst))
+                if keys is not None:
+                    pitches = [x.attrs.get("pitch") for x in lst]
+                    if not all(Lin.of(k) is not None and not isinstance(k, (str, tuple)) and Lin.of(k) == Lin.of(pt) for k, pt in zip(keys, pitches)):
+                        ok, why = False, "the list is sorted with a key (%s) that is not the notes' pitch number: enharmonic spellings such as Cb / B# end up out of order" % (keys[:2],)
+                        break
             else:
                 if not any(v for lab, v in eqs) and n_existing:
                     ok, why = False, "the note is dropped although it equals none of the notes present"
